@@ -255,6 +255,7 @@ class World (object):
     R = self.R
     self.sch = sch
     cls = _task_classes(R)
+    _subs(R)                     # (built outside the execution: task_function() is itself code under trace)
     for idx, e in enumerate(self.prog):
       r = Rec(idx, "t" if e[0] == "t" else "T", e[1])
       self.recs.append(r)
@@ -739,6 +740,7 @@ def _first_diff (w, w2, k):
 
 
 _SPACE = None        # the program space of the suite being run (built before the pool forks)
+_STRIDE = 1          # debugging (--only inline:N): every N-th program only
 
 def _violation (rep, w, replay):
   for clause, what in w.bad:
@@ -747,6 +749,7 @@ def _violation (rep, w, replay):
 
 def _inline_worker (item):
   lo, step, dev = item
+  step *= _STRIDE
   t_cpu = time.process_time()
   rep = Report(PID, "model_checking")
   old = sys.stdout, sys.stderr
@@ -789,10 +792,10 @@ def inline_suites (cfg):
   if cfg.quick:
     return [("2 entities, <=4 yields", OPS_QUICK, 2, 4, 1)]
   return [("2 entities, <=4 yields", OPS_QUICK, 2, 4, 2),
-          ("2 entities, <=5 yields", OPS_QUICK, 2, 5, 1),
-          ("2 entities, <=6 yields (every pair of scripts)", OPS_QUICK, 2, 6, 0),
+          ("2 entities, <=6 yields (every ordered pair of scripts of <=3 yields)", OPS_QUICK, 2, 6, 0),
           ("2 entities, <=4 yields, extended vocabulary", OPS_QUICK + OPS_EXTRA, 2, 4, 1),
-          ("3 entities, <=4 yields", OPS_QUICK, 3, 4, 1)]
+          ("3 entities, <=3 yields", OPS_QUICK, 3, 3, 2),
+          ("3 entities, <=4 yields", OPS_QUICK, 3, 4, 0)]
 
 
 # ---------------------------------------------------------------------------------------------------
@@ -895,7 +898,7 @@ def _thr_worker (item):
       rep.transitions += len(ctx.trace)
       kk = "execs_threaded_program_%d" % pi
       rep.extra[kk] = rep.extra.get(kk, 0) + 1
-      rep.outcome(("thr", pi, w.observation(), tuple(k for k, _ in w.bad)))
+      rep.outcome(("thr", pi, tuple(w.trace), w.observation(), tuple(k for k, _ in w.bad)))
       if w.bad:
         _violation(rep, w, dict(part="threaded", program=pi, prog=_prog_to_json(prog), fd_at={str(k): v for k, v in fd_at.items()},
                                 funcs=None if funcs is None else list(funcs), choices=ctx.choices()))
@@ -937,11 +940,15 @@ def run_threaded_part (cfg, rep):
 
 # ---------------------------------------------------------------------------------------------------
 def run (cfg):
-  global _SPACE
+  global _SPACE, _STRIDE
   rep = Report(PID, "model_checking")
   suites = inline_suites(cfg)
   counts = {}
-  if cfg.only in (None, "inline"):
+  only = cfg.only
+  if only and only.startswith("inline:"):      # debugging aid: a 1/N subsample of the inline programs
+    _STRIDE = int(only.split(":")[1]); only = "inline"
+    rep.caps.append("debug subsample 1/%d of the inline programs" % _STRIDE)
+  if only in (None, "inline"):
     for name, ops, nent, total, dev in suites:
       _SPACE = ProgSpace(ops, nent, total)
       counts[name] = len(_SPACE)
@@ -950,9 +957,11 @@ def run (cfg):
       for r in pmap(_inline_worker, items, cfg.workers, seed=cfg.seed):
         rep.merge(r)
   pts = {}
-  if cfg.only in (None, "threaded"):
+  if only in (None, "threaded"):
     pts = run_threaded_part(cfg, rep)
   rep.state_count = rep.evaluations
+  for k in ("cpu_ms_inline", "cpu_ms_threaded"):
+    if k in rep.extra: rep.extra[k.replace("cpu_ms", "cpu_s")] = round(rep.extra.pop(k) / 1000.0, 1)
   rep.bound = dict(inline_suites=[dict(name=n, vocabulary=list(o), entities=e, total_yields=t, deviations=d, programs=counts.get(n))
                                   for n, o, e, t, d in suites],
                    threaded=[dict(funcs="hand-off functions" if f else "every line of recoco.py", deviations=b) for f, b in threaded_configs(cfg)],
